@@ -18,6 +18,7 @@ package verifhook
 
 import (
 	"context"
+	"io"
 	"sync/atomic"
 )
 
@@ -75,4 +76,27 @@ func JobContext(ctx context.Context, index int) context.Context {
 		return b.h.JobContext(ctx, index)
 	}
 	return ctx
+}
+
+// Writer returns w with every Write passed through Shorten under the given name, for
+// files that are written directly rather than through a storage bucket.
+func Writer(name string, w io.Writer) io.Writer {
+	return &writer{name: name, w: w}
+}
+
+type writer struct {
+	name string
+	w    io.Writer
+}
+
+func (w *writer) Write(p []byte) (int, error) {
+	q, hookErr := Shorten(w.name, p)
+	n, err := w.w.Write(q)
+	if err != nil {
+		return n, err
+	}
+	if hookErr != nil {
+		return n, hookErr
+	}
+	return n, nil
 }
